@@ -104,7 +104,9 @@ def encode_to_dict(obj: Any, refs: Dict[int, Any]):
         elif isinstance(obj, colang_ast_module.SpecType):
             value = {"__type": "SpecType", "value": obj.value}
         elif isinstance(obj, Action):
-            value = {"__type": "Action", "value": obj.to_dict()}
+            # The context and the arguments of an action can hold any value (e.g. a set returned
+            # by the action), so they are encoded as well.
+            value = {"__type": "Action", "value": encode_to_dict(obj.to_dict(), refs)}
         elif isinstance(obj, datetime):
             value = {"__type": "datetime", "value": obj.isoformat()}
         elif isinstance(obj, Enum):
